@@ -29,8 +29,11 @@ CLAIMED = {
              "the exact split: C17_varint_roundtrip (values encoded in 1, 2, 4 or 8 bytes are read back with exactly that length), C17_fields_roundtrip (any field sequence "
              "fitting a class's field program, anywhere in a packet, is read back exactly and consumes exactly its bytes), C17_frame_roundtrip (every frame class given by a "
              "field program, STREAM with all flag combinations among them, followed by anything), C17_payload_roundtrip (a payload that is a sequence of such frames, dispatched "
-             "through the regenerated table, parses to exactly the frames in order). Closed under the global context. ACK, PADDING, PING, HANDSHAKE_DONE, PATH_*, DATAGRAM "
-             "and the generic fallback have no round-trip theorem: the reference encoder covers them through model and implementation.",
+             "through the regenerated table, parses to exactly the frames in order), and the same for every class of the table: C17_ack_roundtrip (any number of ranges, "
+             "ECN counts exactly for type 3), C17_padding_roundtrip (a run of zero bytes is one frame when the next frame is not PADDING), C17_fixed_roundtrip (PING, "
+             "HANDSHAKE_DONE, PATH_CHALLENGE, PATH_RESPONSE), C17_datagram_roundtrip (with length anywhere, without length as the last frame), C17_program_roundtrip and "
+             "C17_payload_roundtrip_all (a payload mixing all classes parses to exactly its frames in order). Closed under the global context. Only the generic fallback "
+             "class (unknown type bytes, never dispatched by the table) has no round-trip theorem.",
         note="Trusted: Coq kernel; py2coq G1 (dispatch dict, class constants); hand-written models of the 22 frame constructors tied by correspondence (structured + "
              "malformed streams, every byte string of length <= 2); reference encoder tools/ref/quic_frames_ref.py.",
         technique="Coq proof (invariant on the reader state; big-endian/varint arithmetic; induction over field programs and over the payload) + model/implementation correspondence",
